@@ -40,7 +40,7 @@ META = {
     "design_ref": "7/C74",
     "shards": {"quick": 3, "thorough": 16},
     "budget_s": {"quick": 60, "thorough": 480},
-    "min_evals": {"quick": 1500, "thorough": 30000},
+    "min_evals": {"quick": 1500, "thorough": 20000},
     "deciding": ["mbqc.gateset", "mbqc.formalism", "pauli.commute", "pauli.offline", "mcm.diagonalize"],
     "rule": "random circuits over {H, S, RZ, RotXZX, CNOT, X, Y, Z, I, GlobalPhase} on 1–2 (thorough: 3) logical wires with a generic "
             "first layer; distinct = fingerprint of (circuit, diagonalize flag); non-trivial = ≥ 1 measured gate and every explored "
@@ -538,8 +538,8 @@ def run(ctx):
     if ctx.shard == 0 or thorough:
         check_tracker_exhaustive(ctx, qp)
     base = ctx.shard * 1_000_000
-    plan = [("gateset", ctx.n(240, 6000), check_gateset), ("diag", ctx.n(240, 6000), check_diagonalize),
-            ("offline", ctx.n(120, 3000), check_offline), ("formalism", ctx.n(150, 3200), None)]
+    plan = [("gateset", ctx.n(240, 3200), check_gateset), ("diag", ctx.n(240, 3200), check_diagonalize),
+            ("offline", ctx.n(120, 1600), check_offline), ("formalism", ctx.n(150, 800), None)]
     for name, n, fn in plan:
         for i in range(n):
             if not ctx.more():
